@@ -28,7 +28,13 @@ RULE = ("seeded random terminal sets (1-12 terminals; input/output sizes "
         "leg: the real map_fmmu programs the FMMU registers of terminal "
         "models on the simulated bus, every input RAM holds a unique "
         "pattern, one cycle is exchanged and patterns must land exactly in "
-        "their regions / output RAM. a case = one master configuration; "
+        "their regions / output RAM; session leg: a master initialises "
+        "the terminals (real Terminal.initialize from SII images), maps a "
+        "group and is torn down in operation, a second master initialises "
+        "them again, optionally connects a second time, and runs 1-2 groups "
+        "over other subsets: outputs of every terminal on the segment hold "
+        "exactly what its group sent and nothing if nobody writes them. "
+        "a case = one master configuration; "
         "non-trivial = >= 2 terminals with process data")
 ASSUMPTIONS = ["any disjoint placement inside the transporting datagram is "
                "accepted, not the particular offsets today's allocator picks"]
@@ -389,9 +395,184 @@ def dynamic(case, res):
                     return
 
 
+def sii_image(isz, osz):
+    """a minimal SII image whose sync-manager category declares process
+    data outputs (SM2) and inputs (SM3)"""
+    img = bytearray(b"\0" * 16) + struct.pack("<IIII", 2, 0x4321, 1, 7)
+    img += bytes(128 - len(img))
+    sm = struct.pack("<HHBBBB", 0x1000, osz, 0x24, 0, 1, 3) + \
+        struct.pack("<HHBBBB", 0x1100, isz, 0x20, 0, 1, 4)
+    img += struct.pack("<HH", 41, len(sm) // 2) + sm
+    img += b"\xff" * 24
+    return bytes(img)
+
+
+def session_leg(res, rng):
+    """two sessions on one segment. Session 1: a master initialises all
+    terminals (the real Terminal.initialize), maps a group and is torn down
+    in the middle of operation (mappings ended by an exception: nothing
+    switches the FMMUs off). Session 2: a new master initialises the
+    terminals again, possibly connects a second time, runs one or two groups
+    over other subsets; one cycle is exchanged per group. Oracle: inputs
+    land in their regions, output RAM of every terminal holds exactly what
+    the group that writes it sent - and nothing at all if nobody writes it."""
+    from ebpfcat.ebpfcat import EBPFTerminal
+    from ebpfcat.ethercat import Terminal
+
+    class SessTerminal(EBPFTerminal):
+        """process data sizes come from the SII sync managers alone (the
+        terminal models have no CoE dictionary)"""
+        async def apply_eeprom(self):
+            await Terminal.apply_eeprom(self)
+    n = rng.randint(2, 4)
+    geo = [dict(pos=30 + i, isz=rng.choice([2, 4, 6]),
+                osz=rng.choice([2, 4, 8])) for i in range(n)]
+    sims = [bus.SimTerminal(f"T{g['pos']}", station=0,
+                            eeprom=sii_image(g["isz"], g["osz"]))
+            for g in geo]
+    b = bus.Bus(sims)
+    first = sorted(rng.sample(range(n), rng.randint(1, n)))
+    rest = [sorted(rng.sample(range(n), rng.randint(1, n)))]
+    if rng.random() < 0.5:
+        rest.append(sorted(rng.sample(range(n), rng.randint(1, n))))
+    rw2 = [{i: rng.random() < 0.6 for i in g} for g in rest]
+    reconnect = rng.random() < 0.5
+    desc = dict(session=True, terminals=geo, first_group=first,
+                second_session_groups=rest,
+                written=[sorted(k for k, v in r.items() if v) for r in rw2],
+                reconnect_before_last_group=reconnect)
+    log = []
+
+    class Boom(Exception):
+        pass
+
+    async def connect(ec, loop):
+        async def cde(factory, **kw):
+            proto = factory()
+            tr = bus.FakeTransport(loop, b, proto)
+            proto.connection_made(tr)
+            return tr, proto
+        loop.create_datagram_endpoint = cde
+        await ec.connect()
+
+    async def init_all(ec):
+        ts = []
+        for i, g in enumerate(geo):
+            t = SessTerminal(ec)
+            t.name = f"T{g['pos']}"
+            t.use_fmmu = True
+            t.pdos = {}
+            await t.initialize(-i, g["pos"])
+            ts.append(t)
+        return ts
+
+    def group(ec, ts, members, rw):
+        devs = []
+        for i in members:
+            a = PacketVar(ts[i], SyncManager.IN, 0, "B")
+            bb = PacketVar(ts[i], SyncManager.OUT, 0, "B") \
+                if rw.get(i) else None
+            devs.append(Dev(a, bb))
+        sg = SyncGroup(ec, devs)
+        sg.allocate()
+        return sg
+
+    async def main(loop):
+        ec1 = SimpleEtherCat("vf")
+        await connect(ec1, loop)
+        ts1 = await init_all(ec1)
+        sg1 = group(ec1, ts1, first, {i: True for i in first})
+        try:
+            async with sg1.map_fmmu():
+                b.process(bytes(sg1.packet.assemble(5)))
+                raise Boom()
+        except Boom:
+            pass
+        # ---- a new program takes over the segment
+        ec2 = SimpleEtherCat("vf")
+        await connect(ec2, loop)
+        ts2 = await init_all(ec2)
+        sgs = []
+        async with AsyncExitStack() as stack:
+            for k, (members, rw) in enumerate(zip(rest, rw2)):
+                if reconnect and k == len(rest) - 1:
+                    await connect(ec2, loop)
+                sg = group(ec2, ts2, members, rw)
+                await stack.enter_async_context(sg.map_fmmu())
+                sgs.append((sg, members, rw))
+            for s_ in sims:
+                s_.mem[0x1000:0x1010] = bytes(16)
+            for k, (sg, members, rw) in enumerate(sgs):
+                frame = bytearray(sg.packet.assemble(7))
+                sent = {}
+                for i in members:
+                    if rw.get(i):
+                        st = sg.pdo_assign[ts2[i]][SyncManager.OUT]
+                        pat = bytes(((geo[i]["pos"] * 53 + k * 29 + j * 7)
+                                     & 0xff) or 3
+                                    for j in range(geo[i]["osz"]))
+                        frame[st:st + len(pat)] = pat
+                        sent[i] = pat
+                for i in members:
+                    sims[i].mem[0x1100:0x1100 + geo[i]["isz"]] = bytes(
+                        ((geo[i]["pos"] * 37 + k * 5 + j * 11) & 0xff) or 1
+                        for j in range(geo[i]["isz"]))
+                resp = b.process(bytes(frame))
+                outram = [bytes(s_.mem[0x1000:0x1000 + g["osz"]])
+                          for s_, g in zip(sims, geo)]
+                inreg = {i: (bytes(resp[sg.pdo_assign[ts2[i]][SyncManager.IN]:
+                                        sg.pdo_assign[ts2[i]][SyncManager.IN]
+                                        + geo[i]["isz"]]),
+                             bytes(sims[i].mem[0x1100:0x1100
+                                               + geo[i]["isz"]]))
+                         for i in members}
+                log.append(dict(k=k, sent=sent, outram=outram, inreg=inreg,
+                                windows=[dict(v) for v in
+                                         sg.fmmu_maps.values()]))
+                for s_ in sims:
+                    s_.mem[0x1000:0x1010] = bytes(16)
+    from contextlib import AsyncExitStack
+    try:
+        aio.run(main, max_iterations=400000)
+    except aio.WallClock:
+        res.inconc("session leg: wall-clock watchdog")
+        return
+    except Exception as ex:
+        res.violation("unexplained:session-raised",
+                      f"{type(ex).__name__}: {str(ex)[:200]}", case=desc)
+        return
+    res.case(desc, nontrivial=True)
+    res.count("sessions")
+    for rec in log:
+        res.count("session_cycles")
+        for i, g in enumerate(geo):
+            want = rec["sent"].get(i, bytes(g["osz"]))
+            res.count("session_output_rams_checked")
+            if rec["outram"][i] != want:
+                res.violation(
+                    "unexplained:session-output",
+                    f"group {rec['k']} of the second session: the outputs of "
+                    f"{sims[i].name} hold {rec['outram'][i].hex()}, "
+                    + (f"the group sent it {want.hex()}" if i in rec["sent"]
+                       else "although this group does not write them")
+                    + f" (logical windows {rec['windows']})", case=desc)
+                return
+        for i, (got, ram) in rec["inreg"].items():
+            res.count("session_input_regions_checked")
+            if got != ram:
+                res.violation(
+                    "unexplained:session-input",
+                    f"group {rec['k']}: input RAM {ram.hex()} of "
+                    f"{sims[i].name} did not land in its region "
+                    f"({got.hex()})", case=desc)
+                return
+
+
 def run_shard(params):
     res = Result()
     rng = random.Random(params["seed"] * 100313 + params["shard"])
+    for _ in range(6 if params["n"] <= 150 else 40):
+        session_leg(res, rng)
     for i in range(params["n"]):
         case = gen_case(rng)
         with kern.session() as sess:
